@@ -81,6 +81,22 @@ def stream_events(body):
                 out.append({"k": "goto", "to": a[4][0], "bb": bb, "loop": lh, "line": t["line"]})
             else:
                 out.append({"k": "seek?", "to": a, "bb": bb, "loop": lh, "line": t["line"]})
+        elif nm.endswith("Cursor::<T>::set_position") or nm.endswith("::seek_relative") or nm.endswith("BufRead::consume"):
+            a = strip_refs(body.term_of_operand(t["args"][1]))
+            while a[0] == "cast":
+                a = strip_refs(a[1])
+            if a[0] == "field" and a[3] == 0 and a[1][0] == "bin" and a[1][1].endswith("WithOverflow"):
+                a = ("bin", a[1][1].replace("WithOverflow", ""), a[1][2], a[1][3])
+            is_pos = lambda z: strip_refs(z)[0] == "call" and (strip_refs(z)[1].endswith("Cursor::<T>::position") or strip_refs(z)[1].endswith("::stream_position"))
+            if not nm.endswith("set_position") and a[0] == "const":
+                out.append({"k": "skip", "n": a[1], "bb": bb, "loop": lh, "line": t["line"]})
+            elif a[0] == "bin" and a[1] == "Add" and ((is_pos(a[2]) and strip_refs(a[3])[0] == "const") or (is_pos(a[3]) and strip_refs(a[2])[0] == "const")):
+                k_ = strip_refs(a[3])[1] if is_pos(a[2]) else strip_refs(a[2])[1]
+                out.append({"k": "skip", "n": k_, "bb": bb, "loop": lh, "line": t["line"]})
+            elif nm.endswith("set_position") and not any(is_pos(z) for z in walk(a)):
+                out.append({"k": "goto", "to": a, "bb": bb, "loop": lh, "line": t["line"]})
+            else:
+                out.append({"k": "seek?", "to": a, "bb": bb, "loop": lh, "line": t["line"]})
         elif nm.endswith("Read>::read_exact") or nm.endswith("BufRead::read_until"):
             out.append({"k": "payload", "how": nm.rsplit("::", 1)[-1], "bb": bb, "loop": lh, "line": t["line"]})
     return out
@@ -164,6 +180,8 @@ def table_of(body):
             cur += e["n"]
         elif e["k"] == "goto":
             cur = 0
+        elif e["k"] == "seek?":
+            res["unknown"] = "the cursor is moved by %s at line %s" % (fmt(e["to"])[:50], e["line"])
         if e["loop"] is None:
             off = cur
         else:
@@ -185,6 +203,9 @@ def run(facts, rep, ctx):
             continue
         where = "%s:%s" % (b.file, b.line)
         tb = table_of(b)
+        if tb.get("unknown"):
+            rep.inconc(R1, "%s: %s; its field offsets are not decided" % (fn, tb["unknown"]))
+            continue
         top = {k: v for k, v in ref.items() if not k.startswith("#")}
         for f, (o, w) in sorted(top.items(), key=lambda kv: kv[1]):
             got = tb["top"].get(f)
@@ -238,6 +259,8 @@ def run(facts, rep, ctx):
                                     cnt = x[4][1][1]
                     if cnt == lref["#count"]:
                         rep.ok(R1, {"struct": fn, "records": cnt})
+                    elif cnt is None:
+                        rep.inconc(R1, "%s: the number of records read was not recognised (reference %d)" % (fn, lref["#count"]))
                     else:
                         rep.violation(R1, fn, "record-count", "%s reads %s records, reference %d" % (fn, cnt, lref["#count"]), where)
     tpl_layout(facts, rep, R1)
@@ -402,7 +425,19 @@ def tpl_sizes(facts, rep, R5):
                 a = [nv.term_of_operand(x) for x in t["args"]]
                 bw = comp.get(a[3][1]) if a[3][0] == "local" else None
                 bh = comp.get(a[4][1]) if a[4][0] == "local" else None
-                good = (bw, bh) == (0, 1)
+                if bw is None or bh is None:
+                    # through the fully expanded terms: component k of the block_dimensions() result
+                    def comp_of(op_):
+                        z = strip_refs(ex.term_of_operand(op_))
+                        while z[0] == "cast":
+                            z = strip_refs(z[1])
+                        if z[0] == "field" and isinstance(z[3], int) and strip_refs(z[1])[0] == "call" and strip_refs(z[1])[1].endswith("block_dimensions"):
+                            return z[3]
+                        return None
+                    bt = [t2 for _, t2 in ex.calls() if (callee_names(t2)[1] or "").endswith("texture_utils::block_to_sequential")]
+                    if bt:
+                        bw, bh = comp_of(bt[0]["args"][3]), comp_of(bt[0]["args"][4])
+                good = None if (bw is None or bh is None) else ((bw, bh) == (0, 1))
         if good:
             rep.ok(R5, {"fn": ex.name, "block_to_sequential": "(.., block_width=.0, block_height=.1)"})
         elif good is False:
@@ -483,15 +518,26 @@ def self_relative(facts, rep, R1):
     if rd is not None:
         nv = rd
         ok = False
+        seen_idx = set()
         for bb, t in rd.calls():
-            if (callee_names(t)[1] or "").endswith("Seek>::seek"):
+            nm_ = callee_names(t)[1] or ""
+            if nm_.endswith("Seek>::seek") or nm_.endswith("Cursor::<T>::set_position"):
                 a = rd.term_of_operand(t["args"][1])
-                idxs = [x for x in walk(a) if x[0] == "call" and "ops::Index" in x[1] and x[2][1][:2] == ("const", 1)]
                 flds = [x for x in walk(a) if x[0] == "field" and x[2] == "offset"]
-                if idxs and flds:
-                    ok = True
+                if not flds:
+                    continue
+                for x in walk(a):
+                    if x[0] == "call" and "ops::Index" in x[1] and strip_refs(x[2][1])[0] == "const":
+                        seen_idx.add(strip_refs(x[2][1])[1])
+                    elif x[0] == "index" and x[2][0] == "const":
+                        seen_idx.add(x[2][1])
+                    elif x[0] == "call" and x[1].rsplit("::", 1)[-1] in ("get", "nth") and len(x[2]) == 2 and strip_refs(x[2][1])[0] == "const":
+                        seen_idx.add(strip_refs(x[2][1])[1])
+        ok = 1 in seen_idx
         if ok:
             rep.ok(R1, {"fn": rd.name, "dict": "DATA entry 1 (textures)"})
+        elif not seen_idx:
+            rep.inconc(R1, "CGFX reader: which DATA entry locates the texture dictionary was not recognised")
         else:
             rep.violation(R1, rd.name, "data-entry", "CGFX reader does not go to DATA.entry[1].offset for the texture dictionary", "%s:%s" % (rd.file, rd.line))
 
@@ -724,6 +770,13 @@ def assembly(facts, rep, R4):
                 rep.ok(R4, {"fn": b.name, "name_at": "info.filename_ptr", "pixels_at": "header.texture_ptr + info.texture_ptr"})
             else:
                 rep.violation(R4, b.name, "ctpk-bases", "pixel data is located with %s only" % adts, "%s:%s" % (b.file, b.line))
+        elif descr == [["texture_ptr"]] and len(set(a for f, a in value_fields(gts[0]["to"], "mila::ctpk::") if f == "texture_ptr")) == 2:
+            # the pixel data is reached by an absolute seek built from both pointers; the name is not located by a
+            # seek at all (taken from the buffer some other way), which this rule does not read
+            rep.ok(R4, {"fn": b.name, "pixels_at": "header.texture_ptr + info.texture_ptr"})
+            rep.inconc(R4, "ctpk::read: how the texture name is located (reference: info.filename_ptr) was not recognised")
+        elif not any("texture_ptr" in d_ for d_ in descr):
+            rep.inconc(R4, "ctpk::read: absolute seeks use %s; the seek to the pixel data was not recognised" % descr)
         else:
             rep.violation(R4, b.name, "ctpk-bases", "absolute seeks use %s (reference: filename_ptr ; header.texture_ptr + info.texture_ptr)" % descr, "%s:%s" % (b.file, b.line))
     # TPL assembly
@@ -746,7 +799,15 @@ def assembly(facts, rep, R4):
                                     out.add("." + y[2])
                 return out
             w, h = names(agg["width"]), names(agg["height"])
+            # the same through the fully expanded terms (values carried in a helper struct, a tuple, ...)
+            for bi, si, s in ex.stmts():
+                if s["k"] == "assign" and s["rv"]["k"] == "agg" and s["rv"].get("def") == "mila::texture::Texture":
+                    full = dict(zip(s["rv"]["field_names"], [ex.term_of_operand(o) for o in s["rv"]["fields"]]))
+                    w |= set("." + f_ for f_, a_ in value_fields(full["width"], "mila::tpl::Tpl"))
+                    h |= set("." + f_ for f_, a_ in value_fields(full["height"], "mila::tpl::Tpl"))
             if ".width" in w and ".height" not in w and ".height" in h and ".width" not in h:
                 rep.ok(R4, {"fn": ex.name, "texture": "width<-image.width, height<-image.height"})
+            elif not ({".width", ".height"} & w) or not ({".width", ".height"} & h):
+                rep.inconc(R4, "TPL Texture: where width (%s) and height (%s) come from was not recognised" % (sorted(w), sorted(h)))
             else:
                 rep.violation(R4, ex.name, "assembly", "TPL Texture width from %s, height from %s" % (sorted(w), sorted(h)), "%s:%s" % (ex.file, ex.line))
